@@ -150,69 +150,102 @@ def r2_set_table(chk: Check):
     chk.require(ok, chk.fkey(av, "returns the validated value"), "Argument.validate must return the value returned by the type's validate (the coerced one)", chk.loc(av.module, av.node))
 
 
-def _validate_src(tree, cls):
-    f = tree.func("core.types", f"{cls}.validate")
-    return f, src(f.node)
-
-
 def r3_coercions(chk: Check):
+    """Reference predicates evaluated on the path traces of each validate(): independent of how the
+    control structure is written"""
+    from ..dataflow import path_traces
+
     tree = chk.tree
-    f, t = _validate_src(tree, "IntType")
+    V = "<p1>"
+
+    def traces(cls):
+        f = tree.func("core.types", f"{cls}.validate")
+        return f, path_traces(f.node), chk.loc(f.module, f.node)
+
+    def returns(ts):
+        return [t for t in ts if t.end.startswith("return")]
+
+    # --- int
+    f, ts, loc = traces("IntType")
+    bad = []
+    for t in ts:
+        isf = t.has(f"isinstance({V}, float)", True)
+        notf = t.has(f"isinstance({V}, float)", False)
+        isi = t.has(f"isinstance({V}, int)", True)
+        fr0 = [c for c in t.conds if c[0].endswith(" == 0")]
+        if t.end.startswith("return"):
+            if isf and fr0 and fr0[0][1] is True and t.end.startswith("return int("):
+                continue
+            if (notf or not isf) and isi and t.end == f"return {V}":
+                continue
+            bad.append(t)
+        elif t.end.startswith("raise"):
+            if (isf and fr0 and fr0[0][1] is False) or (not isf and t.has(f"isinstance({V}, int)", False)):
+                continue
+            bad.append(t)
+        else:
+            bad.append(t)
+    kinds = {("float-ok" if (t.has(f"isinstance({V}, float)", True) and t.end.startswith("return int(")) else "int-ok" if t.end == f"return {V}" else "raise" if t.end.startswith("raise") else "?") for t in ts}
+    chk.require(not bad and {"float-ok", "int-ok", "raise"} <= kinds and "math.modf" in src(f.node), chk.fkey(f, "integral float -> int"),
+                f"IntType.validate: an integral float must become int(...), a float with a fractional part and any non-int must raise, an int is kept ({bad[:2]})", loc)
+    # --- float
+    f, ts, loc = traces("FloatType")
+    ok = all((t.end == f"return float({V})" and t.has(f"isinstance({V}, (float, int))", True)) or (t.end.startswith("raise") and t.has(f"isinstance({V}, (float, int))", False)) for t in ts) and len(ts) == 2
+    ok = ok or all((t.end == f"return float({V})" and t.has(f"isinstance({V}, (int, float))", True)) or (t.end.startswith("raise") and t.has(f"isinstance({V}, (int, float))", False)) for t in ts) and len(ts) == 2
+    chk.require(ok, chk.fkey(f, "int -> float"), f"FloatType.validate: int or float -> float(value); anything else raises ({ts})", loc)
+    # --- path
+    f, ts, loc = traces("PathType")
+    ok = bool(returns(ts))
+    for t in ts:
+        strpath = [c for c in t.conds if c[0] in (f"isinstance({V}, (str, Path))", f"isinstance({V}, (Path, str))")]
+        if t.end.startswith("return"):
+            legacy = any("'$type'" in c[0] and c[1] is True for c in t.conds)
+            ok = ok and ((t.end == f"return Path({V})" and strpath and strpath[0][1] is True) or (legacy and t.end.startswith("return Path(")))
+        else:
+            ok = ok and t.end.startswith("raise") and strpath and strpath[0][1] is False
+    chk.require(ok, chk.fkey(f, "str -> Path"), f"PathType.validate: str or Path -> Path(value); anything else raises ({ts})", loc)
+    # --- str
+    f, ts, loc = traces("StrType")
+    ok = all((t.end.startswith("return") and t.has(f"isinstance({V}, str)", True)) or (t.end.startswith("raise") and t.has(f"isinstance({V}, str)", False)) for t in ts) and len(ts) == 2
+    chk.require(ok, chk.fkey(f, "str only"), f"StrType.validate: non-str raises ({ts})", loc)
+    # --- containers
+    f, ts, loc = traces("ArrayType")
+    ok = len(ts) == 2 and all((t.end == f"return [self.type.validate($1) for $1 in {V}]" and t.has(f"isinstance({V}, List)", True)) or (t.end.startswith("raise") and t.has(f"isinstance({V}, List)", False))
+                              or (t.end == f"return [self.type.validate($1) for $1 in {V}]" and t.has(f"isinstance({V}, list)", True)) or (t.end.startswith("raise") and t.has(f"isinstance({V}, list)", False)) for t in ts)
+    chk.require(ok, chk.fkey(f, "every element validated"), f"ArrayType.validate: non-list raises; the stored list is rebuilt from every validated element ({ts})", loc)
+    f, ts, loc = traces("DictType")
+    want = f"return {{self.keytype.validate($1): self.valuetype.validate($2) for $1, $2 in {V}.items()}}"
+    ok = len(ts) == 2 and all((t.end == want and t.has(f"isinstance({V}, dict)", True)) or (t.end.startswith("raise") and t.has(f"isinstance({V}, dict)", False)) for t in ts)
+    chk.require(ok, chk.fkey(f, "every key and value validated"), f"DictType.validate: non-dict raises; the stored dict is rebuilt from every validated key and value ({ts})", loc)
+    # --- union: first accepting member, else raise unconditionally
+    f = tree.func("core.types", "UnionType.validate")
     g = CFG(f.node)
     loc = chk.loc(f.module, f.node)
-    # float branch: raise iff fractional part != 0, else int(...)
-    fl = [n for n in g.live if n.kind == "test" and src(n.ast) == "isinstance(value, float)"]
-    ok = len(fl) == 1
-    if ok:
-        tb = [b for b, l in fl[0].succ if l is True][0]
-        reg = g.reachable(tb, avoid=[b for b, l in fl[0].succ if l is False])
-        frac = [n for n in g.live if n.id in reg and n.kind == "test" and "== 0" in src(n.ast)]
-        rets = [n for n in g.live if n.id in reg and n.kind == "stmt" and isinstance(n.ast, ast.Return)]
-        rs = [n for n in g.live if n.id in reg and n.kind == "stmt" and isinstance(n.ast, ast.Raise)]
-        ok = len(frac) == 1 and len(rets) == 1 and src(rets[0].ast.value).startswith("int(") and len(rs) == 1 and any(g.dominates(b, rs[0]) for b, l in frac[0].succ if l is False) and "math.modf(value)" in t
-    chk.require(ok, chk.fkey(f, "integral float -> int"), "IntType: a float with a non-zero fractional part must raise, an integral float must become int(...)", loc)
-    ni = [n for n in g.live if n.kind == "test" and src(n.ast) == "isinstance(value, int)"]
-    ok = len(ni) == 1 and any(m.kind == "stmt" and isinstance(m.ast, ast.Raise) for b, l in ni[0].succ if l is False for m, _ in b.succ)
-    chk.require(ok, chk.fkey(f, "non-int raises"), "IntType: a value that is neither int nor integral float must raise", loc)
-    f, t = _validate_src(tree, "FloatType")
-    ok = "if not isinstance(value, (float, int)):" in t and "raise" in t and "return float(value)" in t
-    chk.require(ok, chk.fkey(f, "int -> float"), "FloatType: int or float -> float(value); anything else raises", chk.loc(f.module, f.node))
-    f, t = _validate_src(tree, "PathType")
-    ok = "if not isinstance(value, (str, Path)):" in t and "return Path(value)" in t
-    chk.require(ok, chk.fkey(f, "str -> Path"), "PathType: str or Path -> Path(value); anything else raises", chk.loc(f.module, f.node))
-    f, t = _validate_src(tree, "StrType")
-    ok = "if not isinstance(value, str):" in t and "raise" in t
-    chk.require(ok, chk.fkey(f, "str only"), "StrType: non-str raises", chk.loc(f.module, f.node))
-    f, t = _validate_src(tree, "ArrayType")
-    rets = [x for x in body_walk(f.node) if isinstance(x, ast.Return)]
-    ok = "if not isinstance(value, List):" in t and len(rets) == 1 and isinstance(rets[0].value, ast.ListComp) and src(rets[0].value.elt) == f"self.type.validate({src(rets[0].value.generators[0].target)})" \
-        and src(rets[0].value.generators[0].iter) == "value" and not rets[0].value.generators[0].ifs
-    chk.require(ok, chk.fkey(f, "every element validated"), "ArrayType: non-list raises; the stored list is rebuilt from every validated element", chk.loc(f.module, f.node))
-    f, t = _validate_src(tree, "DictType")
-    rets = [x for x in body_walk(f.node) if isinstance(x, ast.Return)]
-    ok = "if not isinstance(value, dict):" in t and len(rets) == 1 and isinstance(rets[0].value, ast.DictComp)
-    if ok:
-        dc = rets[0].value
-        k, v = [src(e) for e in dc.generators[0].target.elts]
-        ok = src(dc.key) == f"self.keytype.validate({k})" and src(dc.value) == f"self.valuetype.validate({v})" and src(dc.generators[0].iter) == "value.items()" and not dc.generators[0].ifs
-    chk.require(ok, chk.fkey(f, "every key and value validated"), "DictType: non-dict raises; the stored dict is rebuilt from every validated key and value", chk.loc(f.module, f.node))
-    f, t = _validate_src(tree, "UnionType")
-    g = CFG(f.node)
     loops = [n for n in g.live if n.kind == "for" and src(n.ast.iter) == "self.types"]
     ok = len(loops) == 1
     if ok:
         done = [b for b in g.live if b.kind == "branch" and b.extra["test"] is loops[0] and b.extra["polarity"] == "done"][0]
-        nxt = [m for m, _ in done.succ]
-        ok = all(m.kind == "stmt" and isinstance(m.ast, ast.Raise) for m in nxt) and any("return subtype.validate(value)" in src(s) for s in ast.walk(loops[0].ast) if isinstance(s, ast.Return))
-    chk.require(ok, chk.fkey(f, "first accepting member or raise"), "UnionType: returns the first member type's validated value; when no member accepts, it must raise unconditionally", chk.loc(f.module, f.node))
-    f, t = _validate_src(tree, "EnumType")
-    ok = "isinstance(value, self.type)" in t and "return value" in t
-    chk.require(ok, chk.fkey(f, "enum member"), "EnumType: only members of the declared enum", chk.loc(f.module, f.node))
+        reach = g.reachable(done)
+        ok = g.exit.id not in reach and any(n.id in reach and n.kind == "stmt" and isinstance(n.ast, ast.Raise) for n in g.live)
+        v = src(loops[0].ast.target)
+        ok = ok and any(isinstance(x, ast.Return) and src(x.value) == f"{v}.validate(value)" for x in ast.walk(loops[0].ast))
+    chk.require(ok, chk.fkey(f, "first accepting member or raise"), "UnionType: returns the first member type's validated value; when no member accepts, it must raise unconditionally", loc)
+    # --- enum / configuration
+    f, ts, loc = traces("EnumType")
+    ok = all((t.end == f"return {V}" and t.has(f"isinstance({V}, self.type)", True)) or (t.end.startswith("raise") and t.has(f"isinstance({V}, self.type)", False)) for t in ts) and len(ts) == 2
+    chk.require(ok, chk.fkey(f, "enum member"), f"EnumType: only members of the declared enum ({ts})", loc)
     f = tree.func("core.types", "ObjectType.validate")
-    t = src(f.node)
-    ok = "if not isinstance(value, Config):" in t and ("if not isinstance(value, types):" in t or "if not isinstance(value, self.basetype):" in t) and t.count("raise ValueError") >= 2
-    chk.require(ok, chk.fkey(f, "configuration subtype"), "ObjectType: only configurations of the declared class (or a subclass)", chk.loc(f.module, f.node))
-    # defaults are validated when declared and coerced when used: addArgument validates; __init__ goes through set (R2)
+    ts = path_traces(f.node)
+    loc = chk.loc(f.module, f.node)
+    ok = bool(ts)
+    for t in ts:
+        if t.end == f"return {V}":
+            ok = ok and t.has(f"isinstance({V}, Config)", True) and (t.has(f"isinstance({V}, self.basetype)", True) or t.has(f"isinstance({V}, types)", True))
+        elif t.end == "return None":
+            ok = ok and t.has(f"{V} is None", True)
+        else:
+            ok = ok and t.end.startswith("raise")
+    chk.require(ok, chk.fkey(f, "configuration subtype"), f"ObjectType: only configurations of the declared class (or a subclass) ({[t for t in ts if t.end.startswith('return')]})", loc)
     aa = tree.func("core.types", "ObjectType.addArgument")
     chk.require("argument.type.validate(argument.default)" in src(aa.node), chk.fkey(aa, "default validated"), "a declared default must be validated", chk.loc(aa.module, aa.node))
 
@@ -235,32 +268,25 @@ def r4_required_reaches_graph(chk: Check):
             return
         raise Undecided("ConfigInformation.validate: no nested value walker found")
     hp = helper.node.args.args[0].arg
-    rows = {}
-    chain = [s for s in helper.node.body if isinstance(s, ast.If)]
-    if len(chain) != 1:
-        raise Undecided("validate_value: expected one isinstance chain")
-    node = chain[0]
-    while True:
-        t = node.test
-        kinds = []
-        if isinstance(t, ast.Call) and dotted(t.func) == "isinstance" and dotted(t.args[0]) == hp:
-            k = t.args[1]
-            kinds = [dotted(e) for e in (k.elts if isinstance(k, ast.Tuple) else [k])]
-        loops = [x for x in node.body if isinstance(x, ast.For)]
-        rec = [c for b in node.body for c in walk_local(b) if isinstance(c, ast.Call) and dotted(c.func) == helper.node.name]
-        meth = [c for b in node.body for c in walk_local(b) if isinstance(c, ast.Call) and src(c.func).endswith(".__xpm__.validate")]
-        for kd in kinds:
-            rows[kd] = {"iter": [src(l.iter) for l in loops], "target": [src(l.target) for l in loops], "rec": [src(c.args[0]) for c in rec], "method": bool(meth)}
-        if len(node.orelse) == 1 and isinstance(node.orelse[0], ast.If):
-            node = node.orelse[0]
-        else:
-            break
-    chk.require(rows.get("Config", {}).get("method"), chk.fkey(helper, "Config"), "nested configurations are not validated", loc)
-    r = rows.get("list", {})
-    chk.require(bool(r) and r["iter"] == [hp] and r["rec"] == r["target"], chk.fkey(helper, "list elements"), f"configurations inside a list parameter are not validated ({r}): a required value missing there is accepted at submission", loc)
-    r = rows.get("dict", {})
-    chk.require(bool(r) and r["iter"] == [f"{hp}.values()"] and r["rec"] == r["target"], chk.fkey(helper, "dict values"),
-                f"configurations stored as dict values are not validated ({r}; iterating a dict yields its keys): a required value missing there is accepted at submission", loc)
+    gh = CFG(helper.node)
+    hloc = loc
+
+    def guarded(n, kind):
+        return any(t.kind == "test" and src(t.ast) in (f"isinstance({hp}, {kind})",) and pol is True for t, pol in gh.guards(n))
+
+    cfgcalls = [n for n, c in gh.call_nodes(lambda c: src(c) == f"{hp}.__xpm__.validate()") if guarded(n, "Config")]
+    chk.require(bool(cfgcalls), chk.fkey(helper, "Config"), "nested configurations are not validated", hloc)
+    for kind, it_text, what in (("list", hp, "list elements"), ("dict", f"{hp}.values()", "dict values")):
+        loops_k = [n for n in gh.live if n.kind == "for" and guarded(n, kind)]
+        ok = False
+        desc = [src(n.ast.iter) for n in loops_k]
+        for n in loops_k:
+            tgt = src(n.ast.target)
+            rec = [c for s2 in n.ast.body for c in walk_local(s2) if isinstance(c, ast.Call) and dotted(c.func) == helper.node.name]
+            if src(n.ast.iter) == it_text and len(rec) == 1 and len(rec[0].args) == 1 and src(rec[0].args[0]) == tgt:
+                ok = True
+        extra = " (iterating a dict yields its keys)" if kind == "dict" else ""
+        chk.require(ok, chk.fkey(helper, what), f"configurations stored as {what} of a parameter are not validated (loops over {desc}{extra}): a required value missing there is accepted at submission", hloc)
     # called for every argument value; required + missing raises unless generated
     loops = [n for n in g.live if n.kind == "for" and src(n.ast.iter) == "self.xpmtype.arguments.items()"]
     chk.require(len(loops) == 1, chk.fkey(f, "argument loop"), "validate must examine every declared argument", loc)
